@@ -979,3 +979,55 @@ m('c14-legendre-order', ['C14'],
   (N, "        self.gauss_leg = gauss_quadrature_scheme(N_poly_1_2)",
    "        self.gauss_leg = gauss_quadrature_scheme(N_poly_1_2 + 2)"),
   rule='R-singular-measure')
+
+# ---- C18 ------------------------------------------------------------------
+m('c18-revert-f5', ['C18'],
+  (M, "        if self.glue_space and len(initial_space_mesh) - 1 < 3:",
+   "        if self.glue_space and len(self.roots) < 3:"), rule='R-slabcount')
+m('c18-threshold', ['C18'],
+  (M, "        if self.glue_space and len(initial_space_mesh) - 1 < 3:",
+   "        if self.glue_space and len(initial_space_mesh) - 1 < 2:"),
+  rule='R-slabcount')
+m('c18-threshold-twin', ['C18'],
+  (M, "        if self.glue_space and len(initial_space_mesh) - 1 < 3:",
+   "        if self.glue_space and len(initial_space_mesh) < 4:"),
+  expect='silent')
+m('c18-one-pass', ['C18'],
+  (M, """            leaves = list(self.leaf_elements)
+            for elem in leaves:
+                self.refine_space(elem)
+
+
+def Prolongate""", """
+
+def Prolongate"""), rule='R-slabcount')
+m('c18-piece-halfopen', ['C18'],
+  (M, """                if gamma_space.pw_start[i] <= elem.vertices[
+                        0].x < gamma_space.pw_start[i + 1]:""",
+   """                if gamma_space.pw_start[i] < elem.vertices[
+                        0].x <= gamma_space.pw_start[i + 1]:"""),
+  rule='R-pieces')
+m('c18-piece-end-vertex', ['C18'],
+  (M, """                if gamma_space.pw_start[i] <= elem.vertices[
+                        0].x < gamma_space.pw_start[i + 1]:""",
+   """                if gamma_space.pw_start[i] <= elem.vertices[
+                        2].x < gamma_space.pw_start[i + 1]:"""),
+  rule='R-pieces')
+m('c18-circle-speed', ['C18'],
+  (P, "    return np.vstack([np.cos(x_hat), np.sin(x_hat)])",
+   "    return np.vstack([np.cos(2 * x_hat), np.sin(2 * x_hat)])"),
+  rule='K9')
+m('c18-line-direction', ['C18'],
+  (P, "    norm = np.linalg.norm(b - a)\n    direct = (b - a) / norm\n\n    direct = np.copy",
+   "    norm = np.linalg.norm(b - a)\n    direct = (b - a)\n\n    direct = np.copy"),
+  rule='K9')
+m('c18-lshape-vertex', ['C18'],
+  (P, "        v3 = np.array([1, 1])\n        v4 = np.array([-1, 1])",
+   "        v3 = np.array([1, 2])\n        v4 = np.array([-1, 1])"), rule='K9')
+m('c18-offset', ['C18'],
+  (P, "            gamma, length = line(a, b, x_start=pw_start[i])",
+   "            gamma, length = line(a, b, x_start=0)"), rule='R-pieces')
+m('c18-child-piece', ['C18'],
+  (M, "            self.gamma_space = parent.gamma_space\n        else:\n            assert levels == (0, 0)",
+   "            self.gamma_space = None\n        else:\n            assert levels == (0, 0)"),
+  rule='R-inherit')
